@@ -9,7 +9,14 @@ package preprocessor
 //@ props C15 C13 C11
 //@ nilsafe
 //@ requires imp(p != nil, p.iterator != nil)
-//@ loop 0 invariant result != nil
+//@ loop 0 invariant result != nil && fresh(result)
+//@ loop 0 step [the-value-found-is-stored-under-the-entry-s-name] has(result, rangekey) && result[rangekey] == val
 //@ ensures [nil-preprocessor-does-nothing] imp(p == nil, result0 == nil && result1 == nil)
 //@ at call mp.GetMapValue assert [looked-up-in-the-variables-of-this-shot] arg(current) == templateVars && arg(path) == v && arg(iter) == p.iterator
 //@ at call templater.ExecTemplateFuncWithVariables assert [function-arguments-from-this-shot] arg(templateVars) == templateVars && arg(iter) == p.iterator
+
+//@ func (p *Preprocessor) InitIterator
+//@ props C15 C11
+//@ nilsafe
+//@ ensures imp(p != nil, p.iterator == iter)
+//@ modifies p.iterator
